@@ -61,6 +61,18 @@ func (m *monitor) v(tag string, format string, a ...interface{}) {
 	m.viol = append(m.viol, violation{Tag: tag, Msg: msg})
 }
 
+// has: a violation with this tag and prefix was recorded.
+func (m *monitor) has(tag, prefix string) bool {
+	m.mu.Lock()
+	defer m.mu.Unlock()
+	for _, v := range m.viol {
+		if v.Tag == tag && len(v.Msg) >= len(prefix) && v.Msg[:len(prefix)] == prefix {
+			return true
+		}
+	}
+	return false
+}
+
 func (m *monitor) inc(k string) {
 	m.mu.Lock()
 	m.inconclusive[k]++
